@@ -147,6 +147,20 @@ pub fn kset(s: i64) -> Vec<i64> {
   v
 }
 
+/// first character of name i + the rest of name j, for i != j, both at least two characters long (tables up to 64 names)
+pub fn recombinations(names: &[String]) -> Vec<(usize, usize, String)> {
+  let mut out = Vec::new();
+  if names.len() > 64 { return out; }
+  for i in 0..names.len() { for j in 0..names.len() {
+    if i == j { continue; }
+    let a: Vec<char> = names[i].chars().collect(); let b: Vec<char> = names[j].chars().collect();
+    if a.len() < 2 || b.len() < 2 { continue; }
+    let probe: String = std::iter::once(a[0]).chain(b[1..].iter().cloned()).collect();
+    out.push((i, j, probe));
+  }}
+  out
+}
+
 pub fn bogus(first: &str, k: usize) -> String {
   match k {
     0 => "".to_string(),
@@ -262,7 +276,7 @@ fn law_unit(unit: &str, a: &[i64]) -> Option<String> {
 }
 
 const OPS: &[&str] = &["cyc.next", "cyc.idx", "cyc.size", "syear.next", "lyear.next", "scyear.next", "half.next", "season.next", "month.next",
-  "c11.term.next", "c11.term.idx", "scmonth.next", "scmonth.idx", "c11.sfest.next", "c11.sfest.idx", "c11.lfest.next", "fortune.next", "decade.next"];
+  "c11.term.next", "c11.term.idx", "scmonth.next", "scmonth.idx", "c08.scm", "c11.sfest.next", "c11.sfest.idx", "c11.lfest.next", "fortune.next", "decade.next"];
 
 pub fn exec(op: &str, a: &[i64]) -> Option<Option<String>> {
   if OPS.contains(&op) { return Some(go(op, a)); }
@@ -300,6 +314,8 @@ fn go(op: &str, a: &[i64]) -> Option<String> {
     }
     ("scmonth.idx", 2) => { Some(f_scmonth(&scmonth(a[0], a[1]))) }
     ("scmonth.next", 3) => { Some(f_scmonth(&scmonth(a[0], a[1]).next(a[2] as isize))) }
+    // the same for C08 (which compares two response fields): "pillar/index-in-year year"
+    ("c08.scm", 3) => { let x = scmonth(a[0], a[1]).next(a[2] as isize); Some(format!("{}/{} {}", x.get_sixty_cycle().get_index(), x.get_index_in_year(), x.get_sixty_cycle_year().get_year())) }
     ("c11.sfest.idx", 2) => { let x = SolarFestival::from_index(a[0] as isize, us(a[1])?)?; Some(f_sfest(&x)) }
     ("c11.sfest.next", 3) => { let x = SolarFestival::from_index(a[0] as isize, us(a[1])?)?; Some(f_sfest(&x.next(a[2] as isize)?)) }
     ("c11.lfest.next", 3) => { let x = LunarFestival::from_index(a[0] as isize, us(a[1])?)?; Some(f_lfest(&x.next(a[2] as isize)?)) }
@@ -389,6 +405,13 @@ pub fn run_enum(name: &str, args: &[String], w: &mut dyn Write) -> bool {
             let r = g1(|| format!("{}", fnm(&b)));
             writeln!(w, "{} unknown {} {}", c.id, k, r).unwrap();
           }
+          // recombinations: first character of name i + the rest of name j (for two-part names such as stem+branch this
+          // enumerates every pairing, most of which are NOT names and must be refused)
+          let names: Vec<String> = (0..s).map(|i| (c.name)(i as isize)).collect();
+          for (i, j, probe) in recombinations(&names) {
+            let r = g1(|| format!("{}", fnm(&probe)));
+            writeln!(w, "{} recomb {} {} {}", c.id, i, j, r).unwrap();
+          }
         }
       }
       for e in enums() {
@@ -409,6 +432,11 @@ pub fn run_enum(name: &str, args: &[String], w: &mut dyn Write) -> bool {
           let b = bogus(&first, k);
           let r = match (e.from_name)(&b) { Some(j) => format!("{}", j), None => REFUSED.to_string() };
           writeln!(w, "{} unknown {} {}", e.id, k, r).unwrap();
+        }
+        let names: Vec<String> = (0..c).map(|i| (e.name)(i).unwrap()).collect();
+        for (i, j, probe) in recombinations(&names) {
+          let r = match (e.from_name)(&probe) { Some(x) => format!("{}", x), None => REFUSED.to_string() };
+          writeln!(w, "{} recomb {} {} {}", e.id, i, j, r).unwrap();
         }
       }
     }
